@@ -186,7 +186,9 @@ fn gen_steps(rng: &mut StdRng) -> Vec<J> {
 }
 
 fn build(w: &World, steps: &[J]) -> TransactionManifestV2 {
-    let mut mb = ManifestBuilder::new_v2().lock_fee_from_faucet();
+    // the faucet's lock_fee is an untyped call for the analyser (worktop "may hold unspecified resources", upper
+    // bounds open); scenarios marked `nofaucet` pay from account A instead, so that the worktop is known exactly
+    let mut mb = if steps.iter().any(|s| s["op"] == "nofaucet") { ManifestBuilder::new_v2() } else { ManifestBuilder::new_v2().lock_fee_from_faucet() };
     let d = |x: &J| Decimal::try_from(x.as_f64().unwrap().to_string().as_str()).unwrap();
     let ids = |x: &J| -> Vec<NonFungibleLocalId> { x.as_array().unwrap().iter().map(|i| NonFungibleLocalId::integer(i.as_u64().unwrap())).collect() };
     for s in steps {
@@ -199,6 +201,7 @@ fn build(w: &World, steps: &[J]) -> TransactionManifestV2 {
             "free" => mb.get_free_xrd_from_faucet(),
             "lock_fee_withdraw" => mb.lock_fee_and_withdraw(w.accounts[0], d(&s["fee"]), res.unwrap(), d(&s["amt"])),
             "lock_fee_withdraw_nf" => mb.lock_fee_and_withdraw_non_fungibles(w.accounts[0], d(&s["fee"]), w.res[1], ids(&s["ids"])),
+            "nofaucet" => mb,
             "lock_fee" => mb.lock_fee(w.accounts[0], d(&s["fee"])),
             "locker_claim" => mb.call_method(w.locker, ACCOUNT_LOCKER_CLAIM_IDENT, AccountLockerClaimManifestInput { claimant: w.accounts[0].into(), resource_address: w.res[0].into(), amount: d(&s["amt"]) }),
             "locker_recover" => mb
@@ -449,6 +452,10 @@ fn scenarios() -> Vec<(String, Vec<J>)> {
         ("locker-claim", vec![json!({"op": "locker_claim", "amt": 4.5})], 0),
         ("locker-recover", vec![json!({"op": "locker_recover", "amt": 6.5})], 0),
         ("locker-claim-and-withdraw", vec![json!({"op": "locker_claim", "amt": 4.5}), json!({"op": "withdraw", "res": 0, "amt": 5.0})], 0),
+        // the same with an exactly known worktop (fee locked from A, no faucet call): upper bounds are definite
+        ("exact-withdraw", vec![json!({"op": "nofaucet"}), json!({"op": "lock_fee", "fee": 3.0}), json!({"op": "withdraw", "res": 0, "amt": 5.0})], 0),
+        ("exact-locker-claim", vec![json!({"op": "nofaucet"}), json!({"op": "lock_fee", "fee": 3.0}), json!({"op": "locker_claim", "amt": 4.5})], 0),
+        ("exact-locker-recover", vec![json!({"op": "nofaucet"}), json!({"op": "lock_fee", "fee": 3.0}), json!({"op": "locker_recover", "amt": 6.5})], 0),
         ("two-withdrawals", vec![json!({"op": "withdraw", "res": 0, "amt": 5.0}), json!({"op": "lock_fee_withdraw", "fee": 3.0, "res": 0, "amt": 1.5})], 0),
     ];
     for (name, src, r) in typed_sources.iter() {
